@@ -121,6 +121,9 @@ def build(case):
         states["F"] = dict(fan, End=True)
         states["F"].pop("Next", None)
         inner = {"StartAt": "F", "States": {"F": states.pop("F"), "Caught": dict(states.pop("Caught"))}}
+        if case.get("deep"):
+            # one more level: the fan-out is a Branch of a Parallel state that is itself a Branch of the outer state (nesting depth 3)
+            inner = {"StartAt": "Mid", "States": {"Mid": {"Type": "Parallel", "End": True, "Branches": [inner, {"StartAt": "MidP", "States": {"MidP": {"Type": "Pass", "End": True}}}]}}}
         outer = {"Type": "Parallel", "Next": "After", "Branches": [inner, {"StartAt": "Slow", "States": {"Slow": {"Type": "Task", "Resource": fn("slow"), "End": True}}}]}
         if case.get("outer_catch"):
             outer["Catch"] = [{"ErrorEquals": ["States.ALL"], "Next": "OuterCaught", "ResultPath": "$.outer"}]
@@ -214,7 +217,7 @@ def extra(case, sched, starts, res):
         if caught_n > 1:
             fails.append(("catch-target-entered-%d-times" % caught_n, "the Catch target was entered %d times" % caught_n))
         max_attempts = 1 + ((c6.get("retry") or {}).get("MaxAttempts", 3) if c6.get("retry") else 0)
-        outer = 1 if c6.get("outer") else 0
+        outer = (1 if c6.get("outer") else 0) + (1 if c6.get("outer") and c6.get("deep") else 0)
         if started_n - outer > max_attempts:
             fails.append(("fanout-started-too-often", "the fan-out was started %d times, at most %d attempts are allowed" % (started_n - outer, max_attempts)))
     # nothing a sibling does after the fan-out has failed adds history: from a (Parallel|Map)StateFailed event up to the next (re-)entry of a fan-out state (a Retry) no state of a
@@ -316,6 +319,8 @@ def cases():
                 fails[draw(st.integers(0, n - 1))] = draw(st.sampled_from(["task", "timeout"]))
             c["fails"] = ["timeout" if f in ("failstate", "runtime") else f for f in fails]
             c["delays"] = [draw(st.sampled_from([1, 3])) if c["fails"][i] else c["delays"][i] for i in range(n)]
+        if c.get("outer") and draw(st.integers(0, 2)) == 0:
+            c["deep"] = True
         definition, input_value, oracle = build(c)
         sched = draw(st.lists(st.integers(0, 6), max_size=50))
         mcase = {"definition": definition, "input": input_value, "oracle": oracle, "type": draw(st.sampled_from(["STANDARD", "STANDARD", "EXPRESS"])), "c06": c,
@@ -351,7 +356,7 @@ def shard(k, seed, tier, examples=60):
         nfail = sum(1 for f in c6["fails"] if f)
         camp.case(c, nontrivial=nontrivial(case, sched, starts, res["info"]),
                   classes=["kind-" + c6["kind"], "failing-%s" % ("none" if nfail == 0 else "one" if nfail == 1 else "all" if nfail == c6["n"] else "several"),
-                           "handlers-" + ("+".join(h for h in ("retry", "catch") if c6.get(h)) or "none"), "outer" if c6.get("outer") else "flat", "type-" + case["type"],
+                           "handlers-" + ("+".join(h for h in ("retry", "catch") if c6.get(h)) or "none"), "outer" if c6.get("outer") else "flat", "type-" + case["type"],] + (["depth-3"] if c6.get("deep") else []) + [
                            "schedule-" + ("deviating" if any(sched) else "canonical")] + (["workers-reply-twice"] if c6.get("dup_replies") else []) + ["failkind-" + f for f in set(x for x in c6["fails"] if x)],
                   sample=dict(c, outcomes=res["info"].get("outcomes"), trace=res["info"].get("trace", [])[:20]))
         for b, d in tag(fails, c6):
